@@ -652,25 +652,18 @@ theorem agrees_split (x : Flt.Scalar) (fa : List Flt.Val) :
   simp [Val.ofFlt?, scalarsOfFlt_strs]
 
 /-- **split at pipeline level IS `Flt.splitV`** on every scalar (its `toString`), for a separator of one
-    byte, or of several ASCII characters none of which is `-` (the model's guard: the Go code builds a
-    regexp class from the separator, where `a-c` is a range) -/
+    byte or of several ASCII characters — a dash among them is one more separator character (the Go code
+    builds a regexp class from the separator with every metacharacter and the dash escaped; defect fixed in
+    /repo be14efe, the model's former guard is gone) -/
 theorem C19_pipe_split (v : Val) (x : Flt.Scalar) (args : List Val) (fa : List Flt.Val)
-    (h : v.toFlt? = some (.sc x)) (ha : argsToFlt args = some fa) (hsep : Flt.sepArg fa ≠ [])
-    (hdash : 2 ≤ (Flt.sepArg fa).length → (Flt.sepArg fa).contains 45 = false) :
+    (h : v.toFlt? = some (.sc x)) (ha : argsToFlt args = some fa) (hsep : Flt.sepArg fa ≠ []) :
     Agrees (Flt.splitV (.sc x) fa) (builtinFilter (b "split") v args) := by
   rw [pipe_dispatch_split]
   simp only [splitFilter, h, ha]
   split
   · rename_i he; exact absurd he hsep
   · exact agrees_split x fa
-  · rename_i set h1 h2
-    have h2len : 2 ≤ (Flt.sepArg fa).length := by
-      match hs : Flt.sepArg fa, h1, h2 with
-      | [], h1, _ => exact absurd rfl h1
-      | [c], _, h2 => exact absurd rfl (h2 c)
-      | _ :: _ :: _, _, _ => simp
-    rw [hdash h2len]
-    exact agrees_split x fa
+  · exact agrees_split x fa
 
 /-- one-byte separator: `strings.Split`, on EVERY byte string -/
 theorem C19_pipe_split_byte (s : Bytes) (c : UInt8) :
@@ -679,15 +672,20 @@ theorem C19_pipe_split_byte (s : Bytes) (c : UInt8) :
   simp [splitFilter, Val.toFlt?, Val.toScalar?, argsToFlt, Flt.sepArg, Flt.splitV, resOfFlt, Val.ofFlt?,
     scalarsOfFlt_strs, Flt.Scalar.toStr]
 
-/-- a separator of several ASCII characters (no `-`): a cut at EACH of them (the recorded finding
+/-- a separator of several ASCII characters (a dash included): a cut at EACH of them (the recorded finding
     split-multichar-separator, now also at pipeline level) -/
-theorem C19_pipe_split_any (s : Bytes) (c1 c2 : UInt8) (rest : Bytes) (hascii : (c1 :: c2 :: rest).all (· < 128) = true)
-    (hdash : (c1 :: c2 :: rest).contains 45 = false) :
+theorem C19_pipe_split_any (s : Bytes) (c1 c2 : UInt8) (rest : Bytes) (hascii : (c1 :: c2 :: rest).all (· < 128) = true) :
     builtinFilter (b "split") (.str s) [.str (c1 :: c2 :: rest)]
       = some (.ok (.list ((Flt.splitAny (c1 :: c2 :: rest) s).map .str))) := by
   rw [pipe_dispatch_split]
-  simp only [splitFilter, Val.toFlt?, Val.toScalar?, argsToFlt, Flt.sepArg, Option.map_some, hdash]
+  simp only [splitFilter, Val.toFlt?, Val.toScalar?, argsToFlt, Flt.sepArg, Option.map_some]
   simp [Flt.splitV, Flt.sepArg, hascii, resOfFlt, Val.ofFlt?, scalarsOfFlt_strs, Flt.Scalar.toStr]
+
+/-- …so `'a-b c'|split('-c')` cuts at the dash and at the `c`, and nowhere else -/
+example : builtinFilter (b "split") (.str [0x61, 0x2D, 0x62, 0x20, 0x63]) [.str [0x2D, 0x63]]
+    = some (.ok (.list [.str [0x61], .str [0x62, 0x20], .str []])) := by
+  rw [C19_pipe_split_any _ _ _ _ (by decide)]
+  exact congrArg (fun l : List Bytes => some (Except.ok (Val.list (l.map Val.str)))) (by decide : Flt.splitAny [0x2D, 0x63] _ = [[0x61], [0x62, 0x20], []])
 
 /-- the empty separator: the UTF-8 sequences of the string, an invalid byte alone and unchanged
     (`strings.Split(s, "")`) -/
@@ -726,7 +724,7 @@ example : builtinFilter (b "split") (.str [0x61, 0x2C, 0xC3, 0xA9, 0x2C, 0x2C, 0
   rw [C19_pipe_split_byte]; exact congrArg (fun l : List Bytes => some (Except.ok (Val.list (l.map Val.str)))) (by decide : Flt.splitByte 0x2C _ = [[0x61], [0xC3, 0xA9], [], [0xFF]])
 example : builtinFilter (b "split") (.str [0x61, 0x20, 0x62, 0x2C, 0x20, 0x63]) [.str [0x2C, 0x20]]
     = some (.ok (.list [.str [0x61], .str [0x62], .str [], .str [0x63]])) := by
-  rw [C19_pipe_split_any _ _ _ _ (by decide) (by decide)]
+  rw [C19_pipe_split_any _ _ _ _ (by decide)]
   exact congrArg (fun l : List Bytes => some (Except.ok (Val.list (l.map Val.str)))) (by decide : Flt.splitAny [0x2C, 0x20] _ = [[0x61], [0x62], [], [0x63]])
 example : (∀ x ∈ [[0x61, 0xFF], [], [0xC3, 0xA9]], (0x2C : UInt8) ∉ x) := by decide
 
